@@ -116,25 +116,38 @@ pub fn judge(case: &[u8], acc: &mut Acc) {
     }
 }
 
-/// Second clause: a parsed header formats back to exactly the text it was parsed from.
+/// Second clause: a parsed header formats back to exactly the text it was parsed from -- through every way of
+/// parsing a header (bytes, text, `str::parse::<Header>()`) and for the owned copy.
 pub fn judge_parsed(input: &[u8], acc: &mut Acc) {
     let r = v1_bytes(input);
     acc.eval(1);
+    let cr = input.iter().position(|&b| b == b'\r').map(|c| c + 2).unwrap_or(input.len()).min(input.len());
+    let mut check = |acc: &mut Acc, entry: &str, printed: Result<String, String>| match printed {
+        Ok(s) => {
+            if s.as_bytes() != &input[..cr] {
+                acc.violation("parsed-header-prints-differently", entry, format!("{:?}", escape(&input[..cr])), format!("{:?}", s));
+            }
+        }
+        Err(p) => acc.violation("format-panicked", entry, "the header text".into(), p),
+    };
     if let Ok(Ok(h)) = &r {
         acc.nontrivial();
         acc.validated(1);
         acc.class("parsed header", v1_ok_name(h));
-        let cr = input.iter().position(|&b| b == b'\r').map(|c| c + 2).unwrap_or(input.len()).min(input.len());
-        match guard(|| h.to_string()) {
-            Ok(s) => {
-                if s.as_bytes() != &input[..cr] {
-                    acc.violation("parsed-header-prints-differently", "v1::Header::to_string", format!("{:?}", escape(&input[..cr])), format!("{:?}", s));
-                }
-            }
-            Err(p) => acc.violation("format-panicked", "v1::Header::to_string", "the header text".into(), p),
-        }
+        check(acc, "v1::Header::try_from(&[u8]) -> to_string", guard(|| h.to_string()));
+        check(acc, "v1::Header::try_from(&[u8]) -> to_owned -> to_string", guard(|| h.to_owned().to_string()));
     } else {
         acc.class("not accepted", "-");
+    }
+    if let Ok(text) = std::str::from_utf8(input) {
+        if let Ok(Ok(h)) = v1_str(text) {
+            acc.eval(1);
+            check(acc, "v1::Header::try_from(&str) -> to_string", guard(|| h.to_string()));
+        }
+        if let Ok(Ok(h)) = guard(|| text.parse::<v1::Header<'static>>()) {
+            acc.eval(1);
+            check(acc, "str::parse::<v1::Header>() -> to_string", guard(|| h.to_string()));
+        }
     }
 }
 
